@@ -249,7 +249,10 @@ def build_harness(target="dirkdrv"):
             os.replace(dst + ".tmp", dst)
         # build into a private file, then rename: a running check keeps executing its own copy
         out = os.path.join(BUILD, "%s.%d" % (target, os.getpid()))
-        p = subprocess.run(["go1.26", "build", "-tags", "verif", "-o", out, "./cmd/" + target], cwd=hdir, env=GOENV,
+        # VERIF_COVER (development aid): build with coverage instrumentation of the repository's packages; the drivers then write
+        # coverage data to $GOCOVERDIR, which shows the code that no check ever executes
+        cover = ["-cover", "-coverpkg=github.com/attestantio/dirk/..."] if os.environ.get("VERIF_COVER") and target != "ptkill" else []
+        p = subprocess.run(["go1.26", "build", "-tags", "verif"] + cover + ["-o", out, "./cmd/" + target], cwd=hdir, env=GOENV,
                            stdout=subprocess.PIPE, stderr=subprocess.STDOUT, text=True)
         if scratch:
             shutil.rmtree(scratch, ignore_errors=True)
@@ -269,7 +272,8 @@ def build_dirk(verif=False):
         return _built[key]
     os.makedirs(BUILD, exist_ok=True)
     out = os.path.join(BUILD, "%s.%d" % (key, os.getpid()))
-    p = subprocess.run(["go", "build"] + (["-tags", "verif"] if verif else []) + ["-o", out, "."], cwd=REPO, env=GOENV,
+    cover = ["-cover", "-coverpkg=github.com/attestantio/dirk/..."] if os.environ.get("VERIF_COVER") else []
+    p = subprocess.run(["go", "build"] + cover + (["-tags", "verif"] if verif else []) + ["-o", out, "."], cwd=REPO, env=GOENV,
                        stdout=subprocess.PIPE, stderr=subprocess.STDOUT, text=True)
     if p.returncode != 0:
         raise Inconclusive("dirk build failed:\n" + p.stdout[-3000:])
